@@ -301,6 +301,13 @@ func (r *resWorld) apply(op resOp) string {
 			return r.fail("replacing resource %d panicked: %v", i, p)
 		}
 		r.ptr[i] = v
+	case "regall":
+		// every resource type of the case gets registered (with ndyn = limit-4 the registry is full)
+		for j := range r.types {
+			if msg := r.register(j); msg != "" {
+				return msg
+			}
+		}
 	case "regcomp":
 		if len(ecs.ComponentIDs(r.w)) < ecs.MaskTotalBits && len(r.queries) == 0 {
 			ecs.TypeID(r.w, core.FillerType(r.compN))
@@ -351,12 +358,22 @@ func newResWorld(ndyn int) *resWorld {
 func runResCase(c *resReplay) string {
 	r := newResWorld(c.NDyn)
 	for _, i := range c.Order {
-		if msg := r.register(i); msg != "" {
+		var msg string
+		if p := core.Call(func() { msg = r.register(i) }); p != nil {
+			return fmt.Sprintf("registering resource type %d panicked: %v", i, p)
+		}
+		if msg != "" {
 			return msg
 		}
 	}
 	for k, op := range c.Ops {
-		if msg := r.apply(op); msg != "" {
+		var msg string
+		if p := core.Call(func() { msg = r.apply(op) }); p != nil {
+			// e.g. the first use of a resource type while a query is open: resources do not care
+			// about the world lock
+			return fmt.Sprintf("op %d %+v (world locked: %v) panicked: %v", k, op, len(r.queries) > 0, p)
+		}
+		if msg != "" {
 			return fmt.Sprintf("op %d %+v: %s", k, op, msg)
 		}
 		if msg := r.check(op.K == "get"); msg != "" {
@@ -393,7 +410,7 @@ func runResProp(t *testing.T, id, test, rule string, owns func(msg string) bool)
 			npre := rapid.IntRange(0, min(n, 6)).Draw(rt, "npre")
 			c.Order = rapid.Permutation(seqInts(n)).Draw(rt, "order")[:npre]
 			nops := rapid.IntRange(1, 40).Draw(rt, "nops")
-			kinds := []string{"add", "add", "add", "rem", "rem", "illadd", "illrem", "regres", "regcomp", "ent", "ent", "lock", "unlock", "reset", "get", "get", "get", "replace", "replace"}
+			kinds := []string{"add", "add", "add", "rem", "rem", "illadd", "illrem", "regres", "regcomp", "ent", "ent", "lock", "unlock", "reset", "get", "get", "get", "replace", "replace", "regall"}
 			present := map[int]bool{}
 			maxPresent, removals, lockOrReset := 0, 0, false
 			for i := 0; i < nops; i++ {
@@ -470,7 +487,7 @@ func runResProp(t *testing.T, id, test, rule string, owns func(msg string) bool)
 }
 
 func TestC20(t *testing.T) {
-	runResProp(t, "C20", "TestC20", "sequences of Add/Remove/Get/Has over 4 static resource types (through Resources, generic.Resource and AddResource/GetResource) and up to MaskTotalBits-4 dynamic ones, registered in a generated order interleaved with component-type registrations, entity creation/removal, open queries (world lock) and Reset, with illegal Add-present / Remove-absent injected; after every op every registered resource type is read through Resources, and at generated steps (and at the end) through the long-lived generic.Resource mappers and GetResource as well (a mapper asked after every step could never be caught with a stale value); Remove+Add of a new pointer in one step is an op of its own: Has == model, Get == the exact pointer passed to Add (nil when absent), resource IDs dense in their own registry and stable; non-trivial = >= 3 resource types present at some point with a removal in between and a lock or Reset in the history", nil)
+	runResProp(t, "C20", "TestC20", "sequences of Add/Remove/Get/Has over 4 static resource types (through Resources, generic.Resource and AddResource/GetResource) and up to MaskTotalBits-4 dynamic ones, registered in a generated order (now and then all at once: a completely full registry) interleaved with component-type registrations, entity creation/removal, open queries (world lock) and Reset, with illegal Add-present / Remove-absent injected; after every op every registered resource type is read through Resources, and at generated steps (and at the end) through the long-lived generic.Resource mappers and GetResource as well (a mapper asked after every step could never be caught with a stale value); Remove+Add of a new pointer in one step is an op of its own: Has == model, Get == the exact pointer passed to Add (nil when absent), resource IDs dense in their own registry and stable; non-trivial = >= 3 resource types present at some point with a removal in between and a lock or Reset in the history", nil)
 }
 
 // TestC18Resource is the resource part of C18: generic.Resource[T] (long-lived mappers) and
